@@ -652,6 +652,8 @@ def check_sample(ctx, case):
                           kind='sample-mismatch', evals=evs, expected_row=idx in want, present=idx in got)
             known += 1
             break
+    if known:
+        ctx.count('sample.cases_with_a_mismatching_product')
     if want:
         ctx.distinct_case(('sample', tuple(sorted((int(z), int(a)) for z, a, _ in case['atoms'])), case['abundance']))
     ctx.count('sample.products_compared', len(set(got) | set(want)))
